@@ -92,6 +92,11 @@ CLAIMED = {
             "and indexes through fit, predict, transform, transform_scores and update; outputs compared as detections and "
             "as z3 terms; int64 vs float64 compared natively at solver-generated integer witnesses (testing part)",
             "4.C11"),
+    "C10": ("product programs: ten enumerated call histories (earlier predict / transform / fits on other data and shapes, "
+            "repeated calls, a second detector sharing the scorer object, clone, set_params, update vs fit on combined "
+            "data) and their fresh-object references run in the same symbolic path with dataset-tagged table scorers; "
+            "observed outputs compared as detections and z3 terms; fit/evaluate histories of eight scorers on symbolic data",
+            "4.C10"),
 }
 PENDING = {}
 TITLES = {}
